@@ -158,7 +158,7 @@ var globalSeq int64
 
 // NewServer starts a server on 127.0.0.1:0.
 func NewServer(name, role, slice string) (*Server, error) {
-	ln, err := net.Listen("tcp", "127.0.0.1:0")
+	ln, err := listenLoopback()
 	if err != nil {
 		return nil, err
 	}
@@ -167,6 +167,21 @@ func NewServer(name, role, slice string) (*Server, error) {
 	s.wg.Add(1)
 	go s.acceptLoop()
 	return s, nil
+}
+
+// listenLoopback listens on 127.0.0.1:0; when the machine is short of free ports (many
+// sockets in TIME_WAIT while several checks run in parallel) it retries for up to a minute.
+func listenLoopback() (net.Listener, error) {
+	var ln net.Listener
+	var err error
+	for i := 0; i < 240; i++ {
+		ln, err = net.Listen("tcp", "127.0.0.1:0")
+		if err == nil || !strings.Contains(err.Error(), "address already in use") {
+			return ln, err
+		}
+		time.Sleep(250 * time.Millisecond)
+	}
+	return ln, err
 }
 
 // Addr is host:port of the listener.
@@ -184,6 +199,20 @@ func (s *Server) Close() {
 	}
 	s.mu.Unlock()
 	s.wg.Wait()
+}
+
+// Abort is Close with a connection reset (SO_LINGER 0) on every open connection, so that neither
+// side keeps a socket in TIME_WAIT. Use it at the end of a case, BEFORE the proxy's namespace is
+// removed, when many cases run per second: thousands of TIME_WAIT sockets exhaust the local ports.
+func (s *Server) Abort() {
+	s.mu.Lock()
+	for _, c := range s.conns {
+		if tc, ok := c.c.(*net.TCPConn); ok {
+			tc.SetLinger(0)
+		}
+	}
+	s.mu.Unlock()
+	s.Close()
 }
 
 // Events returns a copy of the log.
